@@ -341,7 +341,8 @@ func ruleC16Pair(p *Prog, a *Anchors, r *Report) {
 			}
 			// Token and position are set on the same paths: a Token stored where Line/Column are not (because the
 			// error already has a position) pairs the token of one place with the position of another
-			if g.tok != nil && g.tok.Block() != g.line.Block() {
+			_, freshErr := stripLoad(g.line.Addr.(*ssa.FieldAddr).X).(*ssa.Alloc)
+			if g.tok != nil && g.tok.Block() != g.line.Block() && !freshErr {
 				post := true
 				for _, ret := range returnsOf(f) {
 					if !ReachableBlocks(g.tok.Block())[ret.Block()] {
